@@ -2,6 +2,7 @@ import QR.Model.Compile
 import QR.Spec.Stream
 import QR.Proofs.Total
 import QR.Proofs.Pinned
+import QR.Proofs.Implicit
 /-
 C03 - compile succeeds or raises DataOverflowError, decided by capacity.
 `Model.compile cfg segs` mirrors `QRCode(version, error_correction, mask_pattern)` + `add_data` + `make(fit)`:
@@ -93,5 +94,37 @@ example : Spec.fits 40 .L [(.numeric, 7089)] = true ∧ Spec.fits 40 .L [(.numer
 /-- the Python functions this property's model mirrors have, in /repo's current working tree, exactly the normalised
     ASTs the model was written and validated against (fingerprints regenerated by T1 on every run) -/
 theorem C03_source_fingerprints : QR.Gen.fp_C03 = QR.Pinned.fp_C03 := by decide
+
+/-- **C03 (the other entry points)**: `get_matrix()`, `make_image()`, `print_ascii()` and `print_tty()` on an object
+    that has not been compiled yet (sound blank cache, valid settings, valid data - the hypotheses of
+    `C16_implicit_compile`) raise nothing but DataOverflowError - and that exactly when the cache-free `compile` of the
+    current settings with `fit=True` overflows - except `make_image()`'s ValueError for a non-positive `box_size`
+    (raised before any compile) -/
+theorem C03_entry_points (g : Model.Global) (s : Model.QRState) (l : Spec.Level)
+    (hg : GInv g) (hv : s.version ≤ 40) (hm : ∀ m, s.mask = some m → m ≤ 7) (hl : s.level = l.indicator)
+    (hsegs : ∀ x ∈ s.dataList, x.Valid) (hc : s.dataCache = none) (op : Model.Op)
+    (hop : op = .getMatrix ∨ op = .makeImage ∨ op = .printAscii ∨ op = .printTty) :
+    (∀ e, (Model.step (g, s) op).2 = .err e →
+      (e = .dataOverflow ∧
+        Model.compile { version := s.version, level := s.level, mask := s.mask, fit := true } s.dataList
+          = .error .dataOverflow) ∨
+      (e = .valueError ∧ op = .makeImage ∧ s.boxSize ≤ 0)) ∧
+    (Model.compile { version := s.version, level := s.level, mask := s.mask, fit := true } s.dataList
+        = .error .dataOverflow → ¬ (op = .makeImage ∧ s.boxSize ≤ 0) →
+      (Model.step (g, s) op).2 = .err .dataOverflow) := by
+  have h : Proofs.Implicit.Pre g s l := ⟨hg, hv, hm, hl, hsegs, hc⟩
+  refine ⟨fun e he => Proofs.Implicit.entry_points h op hop e he, fun hov hnb => ?_⟩
+  have h1 := Proofs.Implicit.step_getMatrix h
+  have h2 := Proofs.Implicit.step_printAscii h
+  have h3 := Proofs.Implicit.step_printTty h
+  have h4 := Proofs.Implicit.step_makeImage h
+  have hov' : Model.compile (Proofs.Implicit.freshCfg s) s.dataList = .error .dataOverflow := hov
+  rw [hov'] at h1 h2 h3 h4
+  rcases hop with rfl | rfl | rfl | rfl
+  · exact h1.2
+  · have hb : ¬ s.boxSize ≤ 0 := fun hb => hnb ⟨rfl, hb⟩
+    rw [if_neg hb] at h4; exact h4.2
+  · exact h2.2
+  · exact h3.2
 
 end QR.Props
